@@ -26,6 +26,7 @@ type rec struct {
 	units     string // units statement in the source
 	unitsSeen string // what Entry.Units shows: goyang fills it from deviations only (a leaf's own units live on its AST node and type)
 	removed   bool
+	ordUser   bool // ordered-by user (lists and leaf-lists): no deviation names it, so it never changes
 	parent    string // "", "box" (container), "lst" (list), "ca" (case of choice ch), "g" (grouping used by u1 and u2), "aug"/"late" (added by module a's augments)
 }
 
@@ -108,6 +109,9 @@ func printRec(b *strings.Builder, r *rec, ind string) {
 	if r.max != nil {
 		fmt.Fprintf(b, " max-elements %d;", *r.max)
 	}
+	if r.ordUser {
+		fmt.Fprintf(b, " ordered-by user;")
+	}
 }
 
 // Run generates base modules and deviating modules.
@@ -140,6 +144,9 @@ func Run(j *job.Job, s *job.Sink) {
 			rc := &rec{kind: k, name: fmt.Sprintf("n%d", i)}
 			if r.Intn(3) == 0 {
 				rc.config = []string{"true", "false"}[r.Intn(2)]
+			}
+			if (k == "list" || k == "leaf-list") && r.Intn(2) == 0 {
+				rc.ordUser = true
 			}
 			switch k {
 			case "leaf":
@@ -297,7 +304,29 @@ func Run(j *job.Job, s *job.Sink) {
 			path := t.devPath()
 			again := ""
 			errBefore := wantErr
-			fmt.Fprintf(devText, "  deviation %s {\n", path)
+			// layout of the deviate statements: one per line at one indentation; the first on the
+			// line of the opening brace; indentation that shrinks from one to the next (a later
+			// statement then stands in a smaller column than an earlier one); all on one line.
+			// Written order is the order of the text, whatever the columns.
+			layout := r.Intn(4)
+			ind := func(j int) string {
+				switch {
+				case layout == 1 && j == 0, layout == 3:
+					return " "
+				case layout == 2:
+					return strings.Repeat(" ", 14-4*j)
+				}
+				return "    "
+			}
+			eol := "\n"
+			if layout == 3 {
+				eol = ""
+			}
+			if layout == 1 || layout == 3 {
+				fmt.Fprintf(devText, "  deviation %s {", path)
+			} else {
+				fmt.Fprintf(devText, "  deviation %s {\n", path)
+			}
 			cur := exp[t.name]
 			k := 1 + r.Intn(3)
 			firstKind := ""
@@ -314,7 +343,7 @@ func Run(j *job.Job, s *job.Sink) {
 					}
 				}
 				if dk == "not-supported" {
-					fmt.Fprintf(devText, "    deviate not-supported;\n")
+					fmt.Fprintf(devText, "%sdeviate not-supported;%s", ind(j), map[bool]string{true: "\n", false: eol}[layout == 1 && j == 0 || eol != ""])
 					if !ignoreNS {
 						cur.removed = true
 						if wantErr == "" && r.Intn(3) == 0 {
@@ -327,7 +356,7 @@ func Run(j *job.Job, s *job.Sink) {
 					}
 					break
 				}
-				fmt.Fprintf(devText, "    deviate %s {", dk)
+				fmt.Fprintf(devText, "%sdeviate %s {", ind(j), dk)
 				// pick one or two props
 				props := []string{"config", "default", "mandatory", "min", "max", "units", "type"}
 				r.Shuffle(len(props), func(a, b int) { props[a], props[b] = props[b], props[a] })
@@ -524,7 +553,10 @@ func Run(j *job.Job, s *job.Sink) {
 						}
 					}
 				}
-				devText.WriteString(" }\n")
+				devText.WriteString(" }" + eol)
+			}
+			if layout == 3 {
+				devText.WriteString("\n")
 			}
 			// A deviate of this deviation cannot be applied, and the node it names is removed
 			// afterwards - by the same deviation, by a later one of the same module, or by
@@ -663,7 +695,7 @@ func Run(j *job.Job, s *job.Sink) {
 			walk = func(e *yang.Entry) {
 				la := ""
 				if e.ListAttr != nil {
-					la = fmt.Sprintf("min=%d max=%d", e.ListAttr.MinElements, e.ListAttr.MaxElements)
+					la = fmt.Sprintf("min=%d max=%d user=%v", e.ListAttr.MinElements, e.ListAttr.MaxElements, e.ListAttr.OrderedByUser)
 				}
 				ty := ""
 				if e.Type != nil {
@@ -700,7 +732,7 @@ func Run(j *job.Job, s *job.Sink) {
 				if rc.max != nil {
 					mx = *rc.max
 				}
-				la = fmt.Sprintf("min=%d max=%d", mn, mx)
+				la = fmt.Sprintf("min=%d max=%d user=%v", mn, mx, rc.ordUser)
 			}
 			d := rc.defaults
 			if d == nil {
